@@ -15,7 +15,8 @@ from harness import lib_valueprop as L
 
 NUM = ["i64", "i32", "f32", "f64"]
 _NP = {"i64": np.int64, "i32": np.int32, "f32": np.float32, "f64": np.float64, "bool": np.bool_,
-       "str": np.str_}
+       "str": np.str_, "f16": np.float16, "u8": np.uint8, "i8": np.int8, "i16": np.int16, "u16": np.uint16,
+       "u32": np.uint32, "u64": np.uint64}
 
 
 # ---------------------------------------------------------------------------------- generation
@@ -40,7 +41,7 @@ def _data(rng, dt, shape):
     return vals
 
 
-def gen_program(rng, size: int = 10, with_args: bool = True, control_flow: bool = True) -> list:
+def gen_program(rng, size: int = 10, with_args: bool = True, control_flow: bool = True, random_ops: bool = False) -> list:
     steps: list = []
     vs: list = []  # _V per var
 
@@ -110,6 +111,15 @@ def gen_program(rng, size: int = 10, with_args: bool = True, control_flow: bool 
             "intros", "intros", "unsafe", "inline_const", "inline_const",
             "loop_perm", "loop_perm", "bigconst", "bigconst",
         ])
+        if random_ops and rng.random() < 0.15:
+            # a NON-DETERMINISTIC operator on a constant (history correspondence: the model's "skips propagation"
+            # flag covers subgraph-carrying and non-deterministic nodes alike); its result is no constant
+            i = pick(lambda v: is_t(v) and v.dt in ("f32", "f64") and v.const)
+            if i is not None:
+                fn = rng.choice(["random_uniform_like", "random_normal_like", "bernoulli"])
+                emit({"op": "mlop", "name": fn, "mod": "v17", "fn": fn, "args": [i], "in_dt": "const", "kwargs": {}, "np_kwargs": [], "variadic": False, "nout": 1},
+                     _V("tensor", vs[i].dt, vs[i].shape, False))
+                continue
         if choice == "const":
             new_const()
         elif choice == "attr_const":
@@ -585,6 +595,23 @@ def apply_step(step: dict, vars_: list) -> list:
         from spox._internal_op import unsafe_cast
 
         return [unsafe_cast(a[0], Tensor(_NP[step["dt"]], tuple(step["shape"])))]
+    if o == "inline_legacy":
+        from harness import lib_vplegacy as LG
+
+        m = LG.legacy_model(step["spec"])
+        if step.get("how") == "kw":
+            r = inline(m)(**{i.name: v for i, v in zip(m.graph.input, a)})
+        else:
+            r = inline(m)(*a)
+        return list(r.values())
+    if o == "identity_m":
+        import importlib
+
+        return [importlib.import_module("spox.opset.ai.onnx." + step["mod"]).identity(a[0])]
+    if o == "mlop":
+        from harness import lib_vpdtype as DT
+
+        return DT.apply_mlop(step, a)
     if o == "inline_const":
         return list(inline(_constant_model(tuple(step["data"])))().values())
     if o == "inline0":
@@ -693,7 +720,7 @@ def nul_class(prop, runtime) -> Optional[str]:
     return None
 
 
-def values_equal(a, b, rtol=1e-6) -> Optional[str]:
+def values_equal(a, b, rtol=1e-6, atol=1e-7) -> Optional[str]:
     """Compare a propagated value (ORT format) with a runtime result; None if equal."""
     if a is None or b is None:
         return None if a is None and b is None else f"none-vs-{type(b).__name__ if a is None else type(a).__name__}"
@@ -703,7 +730,7 @@ def values_equal(a, b, rtol=1e-6) -> Optional[str]:
         if len(a) != len(b):
             return f"len:{len(a)}-vs-{len(b)}"
         for x, y in zip(a, b):
-            why = values_equal(x, y, rtol)
+            why = values_equal(x, y, rtol, atol)
             if why:
                 return "elem-" + why
         return None
@@ -717,14 +744,46 @@ def values_equal(a, b, rtol=1e-6) -> Optional[str]:
     if a.dtype != b.dtype:
         return f"dtype:{a.dtype}-vs-{b.dtype}"
     if ka in "fc":
-        ok = np.allclose(a, b, rtol=rtol, atol=1e-7, equal_nan=True)
+        if a.dtype == np.float16:  # one float16 ulp is 1e-3 relative
+            rtol = max(rtol, 4e-3)
+            atol = min(atol, -1e-3) if atol < 0 else max(atol, 1e-3)
+        if atol < 0:  # negative: scale by the magnitude of the runtime array
+            fin = np.abs(b[np.isfinite(b)]) if b.size else b
+            atol = -atol * max(1.0, float(fin.max()) if fin.size else 1.0)
+        ok = np.allclose(a, b, rtol=rtol, atol=atol, equal_nan=True)
         return None if ok else "floats-differ"
     return None if np.array_equal(a, b) else "values-differ"
 
 
 # ------------------------------------------------------------------------------ oracles (model-free)
 
-_ONNX_NP = {1: np.float32, 6: np.int32, 7: np.int64, 11: np.float64, 9: np.bool_}
+_ONNX_NP = {1: np.float32, 6: np.int32, 7: np.int64, 11: np.float64, 9: np.bool_, 10: np.float16, 2: np.uint8,
+            3: np.int8, 5: np.int16, 4: np.uint16, 12: np.uint32, 13: np.uint64}
+
+
+def opn_of(steps: list, k: int, sel: str = "") -> str:
+    """Operator label of step k used in failure keys. Inlined legacy models are labelled by the operator
+    they exercise, the imported-version band and the operators after them as their downstream."""
+    st = steps[k]
+    if st["op"] == "inline_legacy":
+        from harness import lib_vplegacy as LG
+
+        ver = st["spec"]["ver"]
+        band = "lt13" if ver < 13 else ("13to17" if ver < 18 else "ge18")
+        return f"legacy-{LG.main_op(st['spec'])}-{band}@{sel}"
+    if st["op"] == "mlop":
+        return f"{st['name']}-{st.get('in_dt', '')}@{sel}"
+    if st["op"] not in ("const", "arg", "arg_default"):
+        for j in range(k - 1, -1, -1):
+            if steps[j]["op"] == "inline_legacy":
+                return opn_of(steps, j, sel) + "-downstream"
+            if steps[j]["op"] == "mlop":
+                return opn_of(steps, j, sel) + "-downstream"
+    return st["op"]
+
+
+def _short(x, n: int = 70) -> str:
+    return " ".join(str(x).split())[:n]
 
 
 def _is_arg(v) -> bool:
@@ -769,6 +828,66 @@ def type_key(t) -> str:
     return "tensor"
 
 
+# operator-level float32 rounding (exp / pow / accumulation order, cancellation in DFT / normalisations):
+# 2e-5 relative, absolute part scaled by the magnitude of the array
+LEGACY_TOL = {"rtol": 2e-5, "atol": -2e-6}
+
+
+def legacy_as_written(step: dict) -> dict:
+    """The inlined legacy model AS WRITTEN run by both third-party evaluators on the spec's constants
+    (model-free evidence used only to *name* a third-party family, never to pass a difference)."""
+    from harness import lib_vplegacy as LG
+
+    spec = step["spec"]
+    model = LG.legacy_model(spec)
+    feed = {i["name"]: LG.arr_of(i) for i in spec["inputs"]}
+    out = {"ort": None, "ref": None}
+    try:
+        out["ort"] = ort_run(model, feed)
+    except Exception:  # noqa: BLE001
+        pass
+    try:
+        import onnx.reference
+
+        out["ref"] = onnx.reference.ReferenceEvaluator(model).run(None, feed)
+    except Exception:  # noqa: BLE001
+        pass
+    return out
+
+
+def legacy_family(step: dict, k: int, prop, built, sel: str, cache: dict) -> Optional[str]:
+    """Why does the propagated value of output k of an inlined legacy model differ from the built model?
+    -> 'inline-converter' (onnx.version_converter's output computes something else than the model as
+    written does under onnxruntime, and the propagated value IS what the model as written computes under
+    the selected backend), 'inline-reference-vs-ort' (the two evaluators disagree on the model as written
+    and the propagated value is the selected evaluator's), or None (not explained by third parties)."""
+    if "w" not in cache:
+        cache["w"] = legacy_as_written(step)
+    w = cache["w"]
+    O = None if w["ort"] is None else w["ort"][k]
+    R = None if w["ref"] is None else w["ref"][k]
+    mine = O if sel == "onnxruntime" else R
+    if mine is None or values_equal(prop, _like(mine, prop), **LEGACY_TOL) is not None:
+        return None  # the propagated value is not what the selected evaluator computes for the model as written
+    if O is not None and values_equal(_like(O, built), built, **LEGACY_TOL) is not None:
+        return "inline-converter"
+    if sel == "reference" and O is not None and values_equal(_like(R, O), O, **LEGACY_TOL) is not None:
+        return "inline-reference-vs-ort"
+    if sel == "reference" and O is None:
+        # onnxruntime cannot run the model as written (Add-6 `axis`, Gemm-6 ...): the propagated value is
+        # onnx.reference's, the built model is the converter's reading - nobody else to ask
+        return "inline-reference-vs-converter"
+    return None
+
+
+def _like(x, y):
+    """x in the representation of y (object string arrays -> str)."""
+    x = np.asarray(x)
+    if x.dtype.kind == "O":
+        x = x.astype(str)
+    return x
+
+
 def c07_check_program(steps: list, sel: str, seed: int) -> dict:
     """C07 on one program under one backend. Returns {"failures": [(key, what)], "stats": {...}}."""
     import spox
@@ -786,7 +905,7 @@ def c07_check_program(steps: list, sel: str, seed: int) -> dict:
     stats["valued"] = len(valued)
     stats["control_flow_valued"] = sum(1 for i, _ in valued if steps[r["step_of_var"][i]]["op"] in ("if", "loop_perm"))
     for i, v in valued:
-        opn = steps[r["step_of_var"][i]]["op"]
+        opn = opn_of(steps, r["step_of_var"][i], sel)
         why = L.conforms_var(v)
         if why:
             fails.append((f"value-not-of-type:{opn}:{type_key(v.type)}", f"var {i} of {opn}: {why}; type {v.type}"))
@@ -811,6 +930,8 @@ def c07_check_program(steps: list, sel: str, seed: int) -> dict:
         except Exception as e:  # noqa: BLE001
             return {"failures": fails, "stats": stats, "infra": f"ort failed {type(e).__name__}: {str(e)[:200]}"}
         ref_outs: list = []  # onnx.reference on the built model, computed only if onnxruntime disagrees
+        legacy_cache: dict = {}
+        legacy_class: dict = {}
 
         def second_opinion(pos):
             """The other evaluator's result for output `pos` of the *built* model (None if unavailable)."""
@@ -824,12 +945,36 @@ def c07_check_program(steps: list, sel: str, seed: int) -> dict:
             return None if ref_outs[0] is None else ref_outs[0][pos]
 
         for pos, ((i, v), o) in enumerate(zip(exposed, outs)):
-            opn = steps[r["step_of_var"][i]]["op"]
+            opn = opn_of(steps, r["step_of_var"][i], sel)
             if L.has_value(v):
                 stats["compared"] += 1
+                if steps[r["step_of_var"][i]]["op"] in ("inline_legacy", "mlop"):
+                    stats["focus_compared"] = stats.get("focus_compared", 0) + 1
                 if opn in ("topk", "split", "unique", "inline", "inline0", "intros"):
                     stats["multi"] += 1
-                why = values_equal(v._get_value(), o)
+                k_step = r["step_of_var"][i]
+                is_legacy = steps[k_step]["op"] == "inline_legacy"
+                down_of = next((j for j in range(k_step - 1, -1, -1) if steps[j]["op"] == "inline_legacy"), None) \
+                    if steps[k_step]["op"] not in ("const", "arg", "arg_default", "inline_legacy") else None
+                after_mlop = any(steps[j]["op"] == "mlop" for j in range(k_step + 1)) and steps[k_step]["op"] not in ("const", "arg", "arg_default")
+                tol = LEGACY_TOL if (is_legacy or down_of is not None or after_mlop) else {}
+                why = values_equal(v._get_value(), o, **tol)
+                if why and is_legacy:
+                    try:
+                        kk = int(str(v._which_output).rsplit("_", 1)[1])
+                        fam = legacy_family(steps[k_step], kk, v._get_value(), o, sel, legacy_cache.setdefault(k_step, {}))
+                    except Exception:  # noqa: BLE001
+                        fam = None
+                    if fam:
+                        legacy_class[k_step] = fam
+                        from harness import lib_vplegacy as LG
+
+                        fails.append((f"{fam}:{LG.main_op(steps[k_step]['spec'])}",
+                                      f"[{sel}] var {i} ({opn}): propagated {_short(v._get_value())} = the selected evaluator on the inlined model as written, "
+                                      f"but the built (version-converted) model computes {_short(o)}"))
+                        why = None
+                if why and down_of is not None and legacy_class.get(down_of):
+                    why = None  # consequence of the (reported) difference at the inlined model's own output
                 if why == "strings-differ":
                     fam = nul_class(v._get_value(), o)
                     if fam:  # numpy fixed-width strings / the ORT feed drop NULs: its own (listed) family
@@ -853,7 +998,7 @@ def c07_check_program(steps: list, sel: str, seed: int) -> dict:
                 if why:
                     which = v._which_output
                     fails.append((f"value-differs:{opn}:{which}:{why.split(':')[0]}",
-                                  f"[{sel}] var {i} ({opn}->{which}) propagated {str(v._get_value())[:80]} but the built model computes {str(o)[:80]} ({why})"))
+                                  f"[{sel}] var {i} ({opn}->{which}) propagated {_short(v._get_value(), 80)} but the built model computes {_short(o, 80)} ({why})"))
             # derived types (Reshape/Expand/Slice/Tile targets ...) against the runtime value
             stats["derived_types"] += 1
             if isinstance(o, np.ndarray):
@@ -1032,6 +1177,19 @@ def _const_array(step):
     return np.array(list(step["data"]), dtype=np.str_).reshape(-1)
 
 
+NON_DETERMINISTIC = {"RandomUniform", "RandomNormal", "RandomUniformLike", "RandomNormalLike", "Multinomial", "Bernoulli", "Dropout"}
+
+
+def schema_non_deterministic(node) -> bool:
+    """Is the node a sampling operator of the default domain? (the harness's own list from the ONNX operator
+    documentation: `OpSchema.non_deterministic` of onnx 1.22 is also set for Range / If / Loop / *Window)"""
+    try:
+        ot = node.op_type
+        return ot.domain in ("", "ai.onnx") and ot.identifier in NON_DETERMINISTIC
+    except Exception:  # noqa: BLE001
+        return False
+
+
 def record_history(steps: list, sel: str, script=None, at: str = "run") -> dict:
     """Run the program and describe it as a model history (`VP.Step` list) together with the values
     the real code attached. Programs with control flow are not described (returns {"skip": ...})."""
@@ -1090,7 +1248,9 @@ def record_history(steps: list, sel: str, script=None, at: str = "run") -> dict:
                     if type(node).__name__ == "_Inline":
                         h.update({"k": "inline", "gnames": [o.name for o in node.graph.output]})
                     else:
-                        h.update({"k": "standard", "hasSubgraph": next(iter(node.subgraphs), None) is not None})
+                        # "hasSubgraph" is the model's flag for "propagate_values_onnx returns early": subgraph-carrying
+                        # nodes and (since d7506da) operators whose ONNX schema is non-deterministic - read from onnx.defs here
+                        h.update({"k": "standard", "hasSubgraph": next(iter(node.subgraphs), None) is not None or schema_non_deterministic(node)})
                     hist.append(h)
                 for j, (key, v) in enumerate(node.outputs.get_vars().items()):
                     ref_of[id(v)] = {"node": idx, "out": j}
